@@ -878,6 +878,7 @@ fn main() {
         Some("replay") => std::process::exit(replay::replay(&args[2])),
         Some("selftest") => std::process::exit(replay::selftest(&args[2])),
         Some("stubcheck") => std::process::exit(stubcheck()),
+        Some("guardchild") => std::process::exit(replay::guardchild()),
         _ => {
             eprintln!("usage: vdump gen|replay|selftest ...");
             std::process::exit(2);
